@@ -1,7 +1,148 @@
-import GnoVerif.Model.C20
-/-! Property C20 (placeholder while the pipeline is brought up). -/
+import GnoVerif.Proofs.C20Wire
+import GnoVerif.Proofs.C20Val
+import GnoVerif.Proofs.C20Witness
+/-!
+Property C20 — amino encoding is consistent, round-trips and rejects bad input safely.
+
+The theorems are about `Model/C20Wire.lean` (wire primitives) and `Model/C20.lean`
+(the descriptor-driven model of the reflection codec), the same definitions the
+compiled driver `gvdrive_C20` runs against the real code on every check.
+-/
 namespace GnoVerif.C20
 
-theorem key_example : decKeyRaw (encKey 3 .blen) = some (3, 2, 1) := by decide
+/-! ## wire primitives -/
+
+/-- uvarint: decoding the encoding of any uint64 gives it back and consumes exactly
+the encoding, whatever follows. -/
+theorem uvarint_roundtrip (n : Nat) (h : n < 2 ^ 64) (rest : Bytes) :
+    decUvarint (encUvarint n ++ rest) = some (n, (encUvarint n).length) :=
+  decUvarint_encUvarint n h rest
+
+example : decUvarint (encUvarint 300 ++ [7]) = some (300, 2) := by decide +kernel
+
+/-- zig-zag varint (`int8 … int64`, `int`) round trip for every int64. -/
+theorem varint_roundtrip (z : Int) (h1 : -(2 ^ 63 : Int) ≤ z) (h2 : z < (2 ^ 63 : Int)) (rest : Bytes) :
+    decVarint (encVarint z ++ rest) = some (z, (encVarint z).length) := by
+  unfold decVarint encVarint
+  rw [decUvarint_encUvarint _ (zigzag_lt h1 h2)]
+  simp [unzigzag_zigzag]
+
+example : decVarint (encVarint (-3) ++ []) = some (-3, 1) := by decide +kernel
+
+/-- plain (non zig-zag) signed varint, `binary:"varint"`. -/
+theorem plain_varint_roundtrip (z : Int) (h1 : -(2 ^ 63 : Int) ≤ z) (h2 : z < (2 ^ 63 : Int)) (rest : Bytes) :
+    decPlainVarint (encPlainVarint z ++ rest) = some (z, (encPlainVarint z).length) := by
+  unfold decPlainVarint encPlainVarint
+  rw [decUvarint_encUvarint _ (toU64_lt z)]
+  simp [ofU64_toU64 h1 h2]
+
+example : decPlainVarint (encPlainVarint (-1)) = some (-1, 10) := by decide +kernel
+
+/-- fixed32 / fixed64, little endian. -/
+theorem fixed32_roundtrip (u : Nat) (h : u < 2 ^ 32) (rest : Bytes) :
+    decFixed 4 (encFixed32 u ++ rest) = some (u, 4) :=
+  decFixed_enc 4 u (by norm_num; omega) rest
+
+theorem fixed64_roundtrip (u : Nat) (h : u < 2 ^ 64) (rest : Bytes) :
+    decFixed 8 (encFixed64 u ++ rest) = some (u, 8) :=
+  decFixed_enc 8 u (by norm_num; omega) rest
+
+example : decFixed 4 (encFixed32 258 ++ [9]) = some (258, 4) := by decide +kernel
+
+/-- length-prefixed bytes / strings. -/
+theorem bytes_roundtrip (bs rest : Bytes) (h : bs.length < 2 ^ 64) :
+    decBytes (encBytes bs ++ rest) = some (bs, (encBytes bs).length) :=
+  decBytes_encBytes bs rest h
+
+example : decBytes (encBytes [1, 2, 3] ++ [4]) = some ([1, 2, 3], 4) := by decide +kernel
+
+/-- field keys: number (1 … 2^29-1) and typ3. -/
+theorem key_roundtrip (num : Nat) (t : Typ3) (h0 : 0 < num) (h : num < 2 ^ 29) (rest : Bytes) :
+    decKeyRaw (encKey num t ++ rest) = some (num, t.code, (encKey num t).length) :=
+  decKeyRaw_encKey num t h0 h rest
+
+example : decKeyRaw (encKey 3 .blen) = some (3, 2, 1) := by decide +kernel
+
+/-- an accepted varint lies inside the buffer and is at most 10 bytes long. -/
+theorem uvarint_within_buffer {bz : Bytes} {v n : Nat} (h : decUvarint bz = some (v, n)) :
+    0 < n ∧ n ≤ bz.length ∧ n ≤ 10 :=
+  decUvarint_bounds h
+
+/-- overlong varints (ten continuation bytes: more than 64 bits) are rejected. -/
+theorem overlong_varint_rejected (bz : Bytes) (hlen : 10 ≤ bz.length)
+    (hall : ∀ b ∈ bz.take 10, 128 ≤ b.toNat) : decUvarint bz = none :=
+  decUvarint_overlong bz hlen hall
+
+example : decUvarint [0x80, 0x80, 0x80, 0x80, 0x80, 0x80, 0x80, 0x80, 0x80, 0x80, 0x01] = none := by
+  decide +kernel
+/-- … and so is a 10-byte varint whose last byte exceeds 1 (value ≥ 2^64). -/
+example : decUvarint [0xff, 0xff, 0xff, 0xff, 0xff, 0xff, 0xff, 0xff, 0xff, 0x02] = none := by
+  decide +kernel
+
+/-- a buffer that ends inside a varint is rejected. -/
+theorem truncated_varint_rejected (bz : Bytes) (hall : ∀ b ∈ bz, 128 ≤ b.toNat) : decUvarint bz = none :=
+  decUvarint_truncated bz hall
+
+/-- the reserved field number 0 is rejected. -/
+theorem field_zero_rejected (t : Nat) (ht : t < 8) (rest : Bytes) : decKeyRaw (encUvarint t ++ rest) = none := by
+  unfold decKeyRaw
+  rw [decUvarint_encUvarint t (by omega)]
+  have : t / 8 = 0 := by omega
+  simp [this]
+
+/-! ## findings of the unchanged tree (each replayed on the real code from corpus/C20) -/
+
+/-- FULL STATEMENT (false): whatever the reflect decoder accepts as a struct has its
+non-default fields among the fields present on the wire. -/
+def decoded_fields_on_wire_statement : Prop :=
+  ∀ (bz : Bytes) (sig : Bytes), unmarshal envW nProposal bz = some (vProposalSig sig) → sig ≠ [] →
+    ∃ nums, wireFieldNums bz = some nums ∧ 7 ∈ nums
+
+/-- the padded length prefix of field 5 makes the decoder re-read the tail of the
+BlockID payload as field 7: the message has the single top-level field 5, the
+decoded value has `Signature = 07`.  The generated decoder yields `Signature = nil`
+(corpus/C20/02-dec-padded-len.ops, oracle class dec-padded-len). -/
+theorem padded_length_counterexample :
+    unmarshal envW nProposal bzPadded = some (vProposalSig [7]) ∧
+    wireFieldNums bzPadded = some [5] ∧
+    unmarshal envW nProposal bzCanon = some (vProposalSig []) := by
+  decide +kernel
+
+theorem decoded_fields_on_wire_counterexample : ¬ decoded_fields_on_wire_statement := by
+  intro h
+  have h1 : unmarshal envW nProposal bzPadded = some (vProposalSig [7]) := by decide +kernel
+  obtain ⟨nums, hn, h7⟩ := h bzPadded [7] h1 (by decide)
+  have h2 : wireFieldNums bzPadded = some [5] := by decide +kernel
+  rw [h2] at hn
+  cases hn
+  simp at h7
+
+/-- FULL STATEMENT (false): the reflect decoder accepts only byte strings that are a
+sequence of complete protobuf fields. -/
+def accepts_only_complete_fields_statement : Prop :=
+  ∀ (bz : Bytes) (v : Val), unmarshal envW nProposal bz = some v → (wireFieldNums bz).isSome
+
+/-- a `[]byte` field key as the last byte, with no length byte, is accepted
+(corpus/C20/03-dec-bytes-key-eof.ops, oracle class dec-bytes-key-eof). -/
+theorem bytes_key_at_eof_counterexample :
+    unmarshal envW nProposal [0x3a] = some (vProposalAt 0 0) ∧ wireFieldNums [0x3a] = none := by
+  decide +kernel
+
+theorem accepts_only_complete_fields_counterexample : ¬ accepts_only_complete_fields_statement := by
+  intro h
+  have h1 : unmarshal envW nProposal [0x3a] = some (vProposalAt 0 0) := by decide +kernel
+  have := h [0x3a] _ h1
+  have h2 : wireFieldNums [0x3a] = none := by decide +kernel
+  rw [h2] at this
+  cases this
+
+/-- round trip fails for amino's empty time (1970) inside a struct whose encoding is
+empty, held in an interface: it comes back as Go's zero time (year 1)
+(corpus/C20/01-epoch-in-empty-struct.ops, oracle class rt-epoch-in-empty-struct). -/
+theorem roundtrip_epoch_counterexample :
+    marshal envW nMemPackage (vMemPackageAt 0 0) = .ok bzEpoch ∧
+    unmarshal envW nMemPackage bzEpoch = some (vMemPackageAt minTimeSeconds 0) ∧
+    vMemPackageAt minTimeSeconds 0 ≠ vMemPackageAt 0 0 := by
+  refine ⟨by decide +kernel, by decide +kernel, by decide +kernel⟩
 
 end GnoVerif.C20
